@@ -259,7 +259,51 @@ def consistent(conds):
                 eqs.setdefault(m.group(2), set()).add(int(m.group(1)))
     if any(len(v) > 1 for v in eqs.values()):
         return False
+    # X == 'a' and X == 'b' (two different literals) cannot both hold; X == 'a' decides X in ('a', 'b', ...)
+    lits = {}
+    for a, t in seen.items():
+        if t and a[0] == "==":
+            for x, k in ((a[1], a[2]), (a[2], a[1])):
+                if _is_literal_text(k) and not _is_literal_text(x):
+                    lits.setdefault(x, set()).add(k)
+    if any(len(v) > 1 for v in lits.values()):
+        return False
+    for a, t in seen.items():
+        if a[0] == "in" and t and len(a) > 2:
+            members = _literal_members(a[2])
+            # X in ('a', 'b') with X == 'a' and X == 'b' both known false
+            if members and all(seen.get(Atom(("==",) + tuple(sorted([a[1], k])))) is False for k in members):
+                return False
+        if a[0] == "in" and a[1] in lits and len(a) > 2:
+            members = _literal_members(a[2])
+            if members is not None:
+                k = next(iter(lits[a[1]]))
+                if (k in members) != t:
+                    return False
     return True
+
+
+def _is_literal_text(x):
+    if not isinstance(x, str):
+        return False
+    try:
+        ast.literal_eval(x)
+        return True
+    except (ValueError, SyntaxError, MemoryError, RecursionError):
+        return False
+
+
+def _literal_members(x):
+    """texts of the members of a literal tuple / list / set display given as text, else None"""
+    if not isinstance(x, str):
+        return None
+    try:
+        e = ast.parse(x, mode="eval").body
+    except SyntaxError:
+        return None
+    if isinstance(e, (ast.Tuple, ast.List, ast.Set)) and all(isinstance(y, ast.Constant) for y in e.elts):
+        return set(ast.unparse(y) for y in e.elts)
+    return None
 
 
 class Path(object):
@@ -347,12 +391,26 @@ class _FoldDisplay(ast.NodeTransformer):
         return n
 
 
+class _DivmodNorm(ast.NodeTransformer):
+    """divmod(a, b)[0] -> a // b ;  divmod(a, b)[1] -> a % b   (the definition of divmod for the numbers compared here)"""
+
+    def visit_Subscript(self, n):
+        self.generic_visit(n)
+        v = n.value
+        if isinstance(n.ctx, ast.Load) and isinstance(n.slice, ast.Constant) and n.slice.value in (0, 1) and not isinstance(n.slice.value, bool) \
+                and isinstance(v, ast.Call) and isinstance(v.func, ast.Name) and v.func.id == "divmod" and len(v.args) == 2 and not v.keywords:
+            return ast.copy_location(ast.BinOp(left=v.args[0], op=ast.FloorDiv() if n.slice.value == 0 else ast.Mod(), right=v.args[1]), n)
+        return n
+
+
 def subst(e, env):
     if e is None:
         return None
     r = _Sub(env).visit(copy.deepcopy(e))
     if any(isinstance(v, (ast.Dict, ast.List, ast.Tuple)) for v in env.values()):
         r = _FoldDisplay().visit(r)
+    if any(isinstance(x, ast.Name) and x.id == "divmod" for x in ast.walk(r)):
+        r = ast.fix_missing_locations(_DivmodNorm().visit(r))
     return r
 
 
@@ -1024,6 +1082,9 @@ class Summariser(object):
             after.append(zero)
             for q in after + broke:
                 q.effects.append(("endloop", "#%d" % k, st))
+                if q in broke and not self.safe:
+                    # a path that leaves the loop by `break` in this iteration leaves it with this iteration's values
+                    continue
                 self.kill(q, names)
                 for nm in names:
                     q.env[nm] = ast.Name(id="%s@loop%d" % (nm, k), ctx=ast.Load())
